@@ -427,10 +427,12 @@ StartRPC(t, op, md) ==
 StartOp(t, op, r) ==
     /\ Bound /\ "start" \in StimKinds
     /\ thr[t].opc \in {"idle", "ret"} /\ r \in 1..nrpc /\ rpc[r].kind = "NewStream" /\ rpc[r].sid # 0
+    /\ (op = "SendG" => GateU)      \* a send that parks inside the user's Marshal: only where user code is gated
     /\ LET base == [NewThr("app") EXCEPT !.op = op, !.r = r, !.sid = rpc[r].sid] IN
        SetT(t, CASE op = "Send1" -> Call(base, "MsgSend", MsgArg("Message", 1, Tag(r, nst + 1)), "op.done")
                  [] op = "Send2" -> Call(base, "MsgSend", MsgArg("Message", 2, Tag(r, nst + 1)), "op.done")
                  [] op = "SendBad" -> Call(base, "MsgSend", MsgArg("Message", 1, "bad" \o ToString(r)), "op.done")
+                 [] op = "SendG" -> Call(base, "MsgSend", [kind |-> "Message", nfr |-> 1, tag |-> Tag(r, nst + 1), gate |-> TRUE], "op.done")
                  [] op = "Recv" -> Call(base, "MsgRecv", NONE, "op.done")
                  [] op = "CloseSend" -> Call(base, "CloseSend", NONE, "op.done")
                  [] op = "Close" -> Call(base, "Close", NONE, "op.done")
@@ -528,7 +530,7 @@ RelM(t) ==
 
 Controllable ==
     \/ \E t \in CliThreads, op \in {"Invoke", "NewStream"}, md \in {NONE, "M1", "M2"} : StartRPC(t, op, md)
-    \/ \E t \in CliThreads, op \in {"Send1", "Send2", "SendBad", "Recv", "CloseSend", "Close", "SendErr"}, r \in Sids : StartOp(t, op, r)
+    \/ \E t \in CliThreads, op \in {"Send1", "Send2", "SendBad", "SendG", "Recv", "CloseSend", "Close", "SendErr"}, r \in Sids : StartOp(t, op, r)
     \/ \E t \in CliThreads : StartClose(t)
     \/ \E a \in HActs : HStep(a)
     \/ \E e \in Eps, how \in {"ok", "err"} : RelW(e, how)
